@@ -47,3 +47,15 @@ package keeper
 //@   flag havoc=Precompiles,NewEVM,statedb.New,WithPrecompiles,ActivePrecompiles,Precompile,CaptureTxStart,CaptureTxEnd,PrepareAccessList,SetNonce,Create,Call,Commit
 //@   before[C19.amwc.floor] LegacyMaxDec requires arg0 == res_Mul_0
 //@   ensures[C19.amwc.floor] err == nil && r0 != nil ==> defined(res_Uint64_0) && r0.GasUsed == res_Uint64_0
+
+// C19 (after a transaction every touched account's bank balance is the balance the EVM computed - also when that balance
+// is exactly zero): SetBalance decides on the SIGN of (wanted - current) alone: a positive difference is minted and sent
+// to the account, a negative one is taken from the account and burned, whatever the wanted amount is.
+//@ func (*Keeper).SetBalance
+//@   requires !isnil(amount)
+//@   flag noframe
+//@   flag pure=Bytes,GetParams,GetBalance,BigInt,NewCoins,NewCoin,NewIntFromBigInt
+//@   flag havoc=MintCoins,SendCoinsFromModuleToAccount,SendCoinsFromAccountToModule,BurnCoins
+//@   ensures[C19.sb.burn] err == nil && val(amount) < val(res_GetBalance_0.Amount) ==> defined(res_SendCoinsFromAccountToModule_0) && defined(res_BurnCoins_0)
+//@   ensures[C19.sb.mint] err == nil && val(amount) > val(res_GetBalance_0.Amount) ==> defined(res_MintCoins_0) && defined(res_SendCoinsFromModuleToAccount_0)
+//@   ensures[C19.sb.read] defined(res_GetBalance_0)
